@@ -1192,7 +1192,7 @@ def run(ctx):
     build = leanbuild.ensure(PROPERTY, THEOREMS, thorough=ctx.thorough, extractors=['CanonicalName'])
     live = Live()
     r = rng.make('c14')
-    n_worlds = 900 if ctx.thorough else 60
+    n_worlds = 450 if ctx.thorough else 60
     try:
         clp = explore(live, r, n_worlds, QUICK, load_corpus())
         cases = fill(*clp) if build.driver_ok else clp[0]
